@@ -8,6 +8,7 @@ import Frugal.Props.Inst.Params
 import Frugal.Props.Inst.F_valid_bitset
 import Frugal.Props.Inst.F_skeleton_decoder
 import Frugal.Props.Inst.F_skeleton_encoder
+import Frugal.Props.Inst.F_skeleton_descTable
 namespace Frugal.C09
 open Frugal
 theorem ids_in_range (i : Nat) (hi : i < 65536) : bsInRange Generated.params i = true :=
@@ -96,5 +97,13 @@ theorem decoder_model_written_from_this_code : Generated.facts.decoderSkeleton =
     structure of the code (regenerated fingerprint; the fast-path tables are regenerated themselves) -/
 theorem encoder_model_written_from_this_code : Generated.facts.encoderSkeleton = Skeleton.encoder :=
   Instances.skeleton_encoder
+
+/-- the schema the theorems quantify over reaches the codec through the descriptor tables (field index
+    by id, required ids, offsets, per-field flags and fixed sizes, the type node's tag / size / alignment /
+    element nodes): the declarations `structDesc`, `tField`, `tType` and the functions that fill them in
+    (`fromDefsFields`, `fromDefsField`, `GetField`, `newTType`) are, as full text, those the model and the
+    correspondence runs were validated against (regenerated fingerprint) -/
+theorem descriptor_tables_built_as_modelled : Generated.facts.descTableSkeleton = Skeleton.descTable :=
+  Instances.skeleton_descTable
 
 end Frugal.C09
